@@ -237,3 +237,56 @@ Proof.
     cbn beta in G. apply leqb_eq in G. exact G.
 Qed.
 
+
+(* --------------------------------------------- 4.e.iii group name (0xFF 0x12) *)
+Theorem conf_group_name r : length r = 9%nat ->
+  match dec_name1 r with
+  | Some e => e = read_group_name r
+  | None => utf8_valid (snd (read_group_name r)) = false
+  end.
+Proof.
+  intros Hl. do 9 (destruct r as [|? r]; [discriminate Hl|]). destruct r; [|discriminate Hl].
+  unfold dec_name1, read_group_name, byte. cbn [nth firstn skipn snd]. rewrite <- cstring_is_text_before_zero.
+  destruct (utf8_valid (cstring _)); reflexivity.
+Qed.
+
+(* ------------------------------------- 4.e.ii AC error information (0xFF 0x10) *)
+(* b: the bytes after the sub-id, len = their number *)
+Theorem conf_error_info b : (2 <= length b)%nat -> (2 + N.to_nat (byte b 1) <= length b)%nat ->
+  match dec_sub 0xFF10 (length b) b with
+  | Some (S_ErrMsg ac info, rest) =>
+    (ac, info) = read_error_info b /\ rest = skipn (2 + N.to_nat (byte b 1)) b
+  | Some _ => False
+  | None => exists e, snd (read_error_info b) = Some e /\ utf8_valid e = false
+  end.
+Proof.
+  intros H2 Hn. destruct b as [|ac [|el r]]; try (cbn in H2; lia).
+  unfold dec_sub. cbn [N.eqb Pos.eqb length Nat.eqb]. unfold read_error_info, byte. cbn [nth skipn Nat.add].
+  destruct (el =? 0) eqn:E0.
+  - apply N.eqb_eq in E0. subst. cbn. split; reflexivity.
+  - apply N.eqb_neq in E0. destruct (N.to_nat el) eqn:En; [lia|]. rewrite <- En.
+    destruct (utf8_valid (firstn (N.to_nat el) r)) eqn:Eu.
+    + split; reflexivity.
+    + eexists. split; [reflexivity|exact Eu].
+Qed.
+
+(* ------------------------------------------- 4.e.iv console version (0xFF 0x30) *)
+Lemma split_sep_aux_is_split_on sep l : forall cur,
+  split_sep_aux sep cur l = split_on sep (rev cur) l.
+Proof.
+  induction l as [|c l IH]; intros cur; cbn; [reflexivity|].
+  destruct (c =? sep); [now rewrite IH|]. now rewrite IH.
+Qed.
+
+Theorem conf_version b : (2 <= length b)%nat ->
+  match dec_sub 0xFF30 (length b) b with
+  | Some (S_Version up vs, rest) => (up, vs) = read_version VERSION_SEP b
+  | Some _ => False
+  | None => utf8_valid (firstn (N.to_nat (byte b 1)) (skipn 2 b)) = false
+  end.
+Proof.
+  intros H2. destruct b as [|up [|vl r]]; try (cbn in H2; lia).
+  unfold dec_sub. cbn [N.eqb Pos.eqb length Nat.eqb]. unfold read_version, byte. cbn [nth skipn].
+  destruct (utf8_valid (firstn (N.to_nat vl) r)); [|reflexivity].
+  unfold split_sep. now rewrite split_sep_aux_is_split_on.
+Qed.
